@@ -1,5 +1,7 @@
 from sympy.physics import units
 from sympy.physics.units import convert_to
+from sympy.physics.units.systems.si import dimsys_SI
+from ..errors import UnitsError
 from .quantities import Quantity
 
 
@@ -34,5 +36,8 @@ def from_kelvin(value: float) -> Celsius:
 
 
 def from_kelvin_quantity(value: Quantity) -> Celsius:
+    if not dimsys_SI.equivalent_dims(value.dimension, units.temperature):
+        raise UnitsError(f"Argument 'value' to function 'from_kelvin_quantity' must be "
+            f"in units equivalent to '{units.temperature}', got '{value.dimension}'")
     kelvin_value = float(convert_to(value, units.kelvin).subs(units.kelvin, 1).evalf())
     return from_kelvin(kelvin_value)
